@@ -32,6 +32,9 @@ def run(ctx):
         z = int(rng.choice([2, 6, 8, 10, 18, 19, 26])); q = int(rng.integers(1, min(z, 6) + 1))
         edge = abs(dev.rad_phi_uncomp[dev.rad_re_idx] - dev.rad_phi_uncomp[0])
         kT = float(edge / rng.uniform(15, 60))
+        if k % 4 == 1:
+            from ebisim.physconst import MINIMAL_KBT
+            kT = float(MINIMAL_KBT)          # the ideal cold limit itself: ions injected at the temperature floor
         tg = [ebisim.Element.get_ions(z, float(10 ** rng.uniform(3, 7)), kT, q, cx=bool(rng.integers(0, 2)))]
         if k % 2:
             tg.append(ebisim.Element.get_gas(int(rng.choice([2, 10])), float(10 ** rng.uniform(-10, -8)), dev.r_dt, cx=bool(rng.integers(0, 2))))
@@ -42,33 +45,50 @@ def run(ctx):
         ys = [y0.copy()]
         for _ in range(2):
             y = y0.copy(); y[: m.nq] = np.where(rng.uniform(size=m.nq) < 0.5, 10 ** rng.uniform(1, 7, m.nq), y[: m.nq]); ys.append(y)
-        advcorr.compare_rhs(ctx, m, ys, {"z": z, "q": q, "kT": kT, "device": dkw})
+        if k % 4 != 1:     # (at the temperature floor the 60-node grid cannot resolve the ion cloud: only the start vector is compared)
+            advcorr.compare_rhs(ctx, m, ys, {"z": z, "q": q, "kT": kT, "device": dkw})
         ctx.seen((z, q, k))
         if k == 0:
             ctx.sample({"device": dkw, "Z": z, "q": q, "kT": kT, "beam_edge_step": float(edge)})
 
 
-def stmt_sim(z, q, dkw, t_max, rng, cx=True):
-    """end-to-end: advanced (limit options, cold ions) vs basic"""
+def stmt_sim(z, q, dkw, t_max, rng, cx=True, kT_inj=None, dr=False, history=None):
+    """end-to-end: advanced (limit options, cold ions) vs basic; `history`: devices simulated before in this process (same target, options)"""
     import ebisim
     from ebisim.simulation import Device, advanced_simulation
     logging.getLogger("ebisim").setLevel(logging.ERROR)
     out = []
+    for hk in (history or []):
+        try:
+            advanced_simulation(Device.get(**hk), ebisim.Element.get_ions(z, 1e5, 10.0, q, cx=cx), 1e-5, options=limit_options(dr=dr), verbose=False)
+        except Exception:
+            pass
     dev = Device.get(**dkw)
     edge = abs(dev.rad_phi_uncomp[dev.rad_re_idx] - dev.rad_phi_uncomp[0])
-    kT = edge / 30
+    kT = edge / 30 if kT_inj is None else kT_inj
     nl = 1e5
-    inp = {"Z": z, "q": q, "device": dkw, "t_max": t_max, "cx": cx}
+    inp = {"Z": z, "q": q, "device": dkw, "t_max": t_max, "cx": cx, "kT_inj": kT_inj, "dr": dr, "history": history}
     def add(clause, what):
         out.append({"key": {"clause": clause, "Z": z}, "what": what, "input": inp})
     tg = ebisim.Element.get_ions(z, nl, kT, q, cx=cx)
     try:
-        ra = advanced_simulation(dev, tg, t_max, options=limit_options(), rates=True, verbose=False)
+        ra = advanced_simulation(dev, tg, t_max, options=limit_options(dr=dr), rates=True, verbose=False)
     except Exception as e:
         add("simulation_raises", f"advanced_simulation in the ideal-overlap limit raised {type(e).__name__}: {str(e)[:120]}")
         return out
+    if dr:
+        # "... the basic simulation run with the device's current density, beam energy and energy spread": the recombination cross sections
+        # the advanced run integrates are those of this device's energy and spread (whatever was simulated before in this process)
+        want = ebisim.drxs_vec(ebisim.Element.get(z), dev.e_kin, dev.fwhm)
+        have = np.asarray(ra.model.drxs, float)[: z + 1]
+        if have.shape != want.shape or not np.array_equal(have, want):
+            i_ = int(np.argmax(np.abs(have - want))) if have.shape == want.shape else 0
+            add("dr_cross_sections_of_device", f"the advanced run uses sigma_DR[{i_}] = {have[i_]!r} but drxs_vec(Z={z}, E={dev.e_kin!r}, fwhm={dev.fwhm!r})[{i_}] = {want[i_]!r}")
+    from ebisim.physconst import MINIMAL_KBT as _KT_MIN
+    if ra.kbT[q, 0] != max(kT, _KT_MIN) or ra.N[q, 0] != nl:
+        add("injected_as_declared", f"ions declared with kT = {kT!r} eV, line density {nl!r} start the advanced run at kT = {ra.kbT[q, 0]!r}, N = {ra.N[q, 0]!r}")
     N0 = np.where(np.arange(z + 1) == q, nl, 0.0)
-    rb = ebisim.basic_simulation(z, dev.j, dev.e_kin, t_max, dr_fwhm=None, N_initial=N0, CNI=True, solver_kwargs=dict(rtol=1e-10, atol=1e-12 * nl, dense_output=True))
+    rb = ebisim.basic_simulation(z, dev.j, dev.e_kin, t_max, dr_fwhm=(dev.fwhm if dr else None), N_initial=N0, CNI=True, solver_kwargs=dict(rtol=1e-10, atol=1e-12 * nl, dense_output=True))
     from ebisim.simulation._result import Rate
     fei_min = float(np.min(ra.rates[Rate.F_EI][1:, :])) if ra.rates else 1.0
     worst = 0.0
@@ -125,13 +145,43 @@ def search(ctx):
         V += stmt_ei_only(int(rng.choice([2, 6, 10])), dkw, rng, gas=bool(k % 2), cx=bool((k // 2 + 1) % 2 if n > 2 else (k + 1) % 2))
         ctx.count("simulations", 2)
         if len(V) > 5: break
+    # dielectronic recombination included: beam energy on a tabulated resonance, two devices that differ only in the energy spread, run one
+    # after the other in this process (each must agree with the basic simulation at its own spread)
+    import ebisim
+    z = int(rng.choice([10, 18]))
+    el = ebisim.Element.get(z)
+    i = int(np.argmax(el.dr_strength))   # the strongest resonance: recombination into cs-1 competes visibly with ionisation
+    cs = int(el.dr_cs[i]); er = float(el.dr_e_res[i])
+    dkw = gens.device_kwargs(rng, n_grid=60)
+    dkw["e_kin"] = er
+    while dkw["current"] / er ** 1.5 > 1.5e-6: dkw["current"] *= 0.5
+    dkw.pop("fwhm", None)
+    hist = []
+    for fw in (None, float(rng.uniform(3, 8))):
+        d2 = dict(dkw) if fw is None else dict(dkw, fwhm=fw)
+        V += stmt_sim(z, cs, d2, float(rng.uniform(2e-2, 4e-2)), rng, cx=False, dr=True, history=list(hist)); ctx.count("simulations")
+        hist.append(d2)
+    # the ideal cold limit itself: injection at the temperature floor
+    from ebisim.physconst import MINIMAL_KBT
+    # (a grid fine enough to resolve a 1 meV cloud: q dphi_1 / 500 <= kT, the limit C03 names; 400 nodes, moderate perveance)
+    from ebisim.simulation import Device
+    for _ in range(6):
+        dkw = gens.device_kwargs(rng, n_grid=400)
+        dkw["current"] = float(rng.uniform(0.05, 0.2)); dkw["e_kin"] = float(rng.uniform(3000, 8000))
+        d_ = Device.get(**dkw)
+        if abs(d_.rad_phi_uncomp[1] - d_.rad_phi_uncomp[0]) / 500 <= 0.5 * MINIMAL_KBT:
+            V += stmt_sim(int(rng.choice([6, 8])), 1, dkw, float(10 ** rng.uniform(-3, -2)), rng, cx=True, kT_inj=float(MINIMAL_KBT)); ctx.count("simulations")
+            break
     return V
 
 
 def replay(ctx, data):
     inp = data.get("violation", {}).get("input", {})
     if "t_max" in inp:
-        r = stmt_sim(int(inp["Z"]), int(inp["q"]), inp["device"], float(inp["t_max"]), np.random.default_rng(0), cx=bool(inp.get("cx", True)))
+        r = stmt_sim(int(inp["Z"]), int(inp["q"]), inp["device"], float(inp["t_max"]), np.random.default_rng(0), cx=bool(inp.get("cx", True)),
+                     kT_inj=inp.get("kT_inj"), dr=bool(inp.get("dr", False)), history=inp.get("history"))
+        key = data.get("violation", {}).get("key", {})
+        r = [x for x in r if x["key"].get("clause") == key.get("clause")] or r
     elif "gas" in inp:
         r = stmt_ei_only(int(inp["Z"]), inp["device"], np.random.default_rng(0), bool(inp["gas"]), cx=bool(inp.get("cx", True)))
     else:
